@@ -1,6 +1,6 @@
 SPECIFICATION Spec
 CONSTANTS
-  MaxOps = 5
+  MaxOps = 6
   NFiles = {3}
   QKinds = {"diagnostics", "symbols", "types"}
   CatSet = {"small"}
